@@ -48,6 +48,23 @@ def discover_copy_fns(facts):
             COPY_FNS.add(b.id)
 
 
+def handle_of(e, b, eb):
+    """type name of the object an access path denotes, when it is a parameter (possibly behind references)"""
+    while isinstance(e, tuple) and e and e[0] in ("deref", "ref"):
+        e = e[1]
+    if isinstance(e, tuple) and e and e[0] == "param":
+        ty = b.locals[e[1]]["ty"]
+        for pre in ("&mut ", "&", "*mut ", "*const "):
+            while ty.startswith(pre):
+                ty = ty[len(pre):]
+        if ty.startswith("'") and " " in ty:
+            ty = ty.split(" ", 1)[1]
+            if ty.startswith("mut "):
+                ty = ty[4:]
+        return ty
+    return None
+
+
 def norm_handle(e):
     """fields of a cloned / ptr::read / shallow_clone'd handle are the fields of its source"""
     if not isinstance(e, tuple) or not e:
@@ -171,6 +188,19 @@ def run(facts):
                 res.bad(key, caller.loc(x["bi"]), x["text"])
     res.floor("helper_precondition_obligations", n_calls, 20)
     res.floor("raw_sites_in_safe_fns", n_raw, 15)
+    # the byte-read scan finds nothing on a tree that reads bytes through slices only; that it is not blind shows in the raw-pointer
+    # dereferences of the other pointee types it walks over with the same code (`(*shared).ref_cnt`, ..)
+    n_deref = 0
+    for caller in facts.fn_bodies():
+        if facts.is_test(caller):
+            continue
+        for blk in caller.blocks:
+            if blk["cleanup"]:
+                continue
+            for s_ in blk["stmts"]:
+                if s_["k"] == "assign":
+                    n_deref += sum(1 for pl in places_read(s_["rv"]) if pl["p"] and pl["p"][0] == "*" and caller.locals[pl["l"]]["ty"].startswith(("*const", "*mut")))
+    res.floor("raw-pointer dereferences walked by the byte-read scan (positive example)", n_deref, 10)
     return res
 
 
@@ -276,6 +306,21 @@ def judge_sites(facts, helpers, caller, only_blocks=None):
                             if (const_of(n) == 1 and ctx.lt(off, ln)) or ctx.le(("bin", "Add", off, n), ln):
                                 hows.append("%s: offset + count <= len(%s)" % (what, fmt_expr(b0[2][0])[:60]))
                                 continue
+                    # a write at `h.ptr + off` (h a BytesMut: fields ptr / len / cap) needs room: off + count <= h.cap must follow from the
+                    # conditions that hold at the write (A8 keeps len <= cap, which leaves no room for even one byte at ptr + len)
+                    if what == "destination" and is_call(inner, "add") and len(inner[2]) == 2:
+                        hp = strip_ptr(inner[2][0])
+                        while isinstance(hp, tuple) and hp and (is_call(hp, "as_ptr") or is_call(hp, "as_mut_ptr")) and len(hp[2]) == 1:
+                            hp = strip_ptr(hp[2][0])
+                        if isinstance(hp, tuple) and hp and hp[0] == "field" and hp[2] == "ptr" and handle_of(hp[1], caller, eb) == "bytes_mut::BytesMut":
+                            cap = ("field", hp[1], "cap")
+                            off = inner[2][1]
+                            if (const_of(n) == 1 and ctx.lt(off, cap)) or ctx.le(("bin", "Add", off, n), cap):
+                                hows.append("%s: offset + count <= cap of the handle" % what)
+                            else:
+                                probs.append("%s: %s byte(s) are written at ptr + %s and nothing that holds there says %s + %s <= cap" % (
+                                    what, fmt_expr(n)[:30], fmt_expr(off)[:40], fmt_expr(off)[:40], fmt_expr(n)[:30]))
+                            continue
                     # raw pointer arithmetic on handle fields: representation-invariant site (rule A8)
                     if tainted_by_int_param(n, caller) or tainted_by_int_param(ptr, caller):
                         probs.append("%s is raw pointer arithmetic with a caller-controlled operand: %s" % (what, fmt_expr(ptr)))
@@ -305,7 +350,69 @@ def judge_sites(facts, helpers, caller, only_blocks=None):
                         ok = True
                         how = "guard offset <= handle.%s" % f
             emit(0, "raw", "|ptr.%s" % name, ok, how if ok else "unchecked pointer move by a caller-controlled amount %s without a dominating bound check" % fmt_expr(x), ok)
+            continue
+        # ---- raw byte reads in safe fns: `p.read()` -------------------------------------
+        if name in ("read", "read_unaligned", "read_volatile") and ("ptr::const_ptr" in path or "ptr::mut_ptr" in path or path.startswith("core::ptr::read")) \
+                and caller.safety == "safe" and t["args"] and t["args"][0]["k"] in ("copy", "move") and not t["args"][0]["pl"]["p"] \
+                and caller.locals[t["args"][0]["pl"]["l"]]["ty"] in BYTE_PTRS:
+            ok, how = byte_read_bounded(caller, bi, facts, eb.operand(t["args"][0], loc))
+            emit(0, "raw", "|byte read", ok, how, ok)
+    # ---- raw byte reads in safe fns: `*p` with p a raw byte pointer -------------------------
+    if caller.safety == "safe":
+        for bi, blk in enumerate(caller.blocks):
+            if blk["cleanup"] or (only_blocks is not None and bi not in only_blocks) or in_debug_region(caller, bi):
+                continue
+            for si, s_ in enumerate(blk["stmts"]):
+                if s_["k"] != "assign":
+                    continue
+                for pl in places_read(s_["rv"]):
+                    if pl["p"] and pl["p"][0] == "*" and caller.locals[pl["l"]]["ty"] in BYTE_PTRS:
+                        ok, how = byte_read_bounded(caller, bi, facts, eb.local(pl["l"], (bi, si)))
+                        out.append({"bi": bi, "j": 0, "kind": "raw", "keytail": "|byte read", "ok": ok, "text": how, "nontrivial": ok})
     return out
+
+
+BYTE_PTRS = ("*const u8", "*mut u8", "*const core::mem::MaybeUninit<u8>", "*mut core::mem::MaybeUninit<u8>", "*const i8", "*mut i8")
+
+
+def places_read(rv):
+    """places an rvalue reads"""
+    out = []
+
+    def go(x):
+        if isinstance(x, dict):
+            if "l" in x and isinstance(x.get("p"), list):
+                out.append(x)
+                return
+            for k, v in x.items():
+                if k != "span":
+                    go(v)
+        elif isinstance(x, list):
+            for v in x:
+                go(v)
+    if rv.get("k") in ("ref", "rawptr"):
+        return out        # taking an address reads nothing
+    go(rv)
+    return out
+
+
+def byte_read_bounded(caller, bi, facts, ptr):
+    """one byte is read through `ptr`: it must be `s.as_ptr()` / `s.as_ptr().add(k)` of a slice s with `k < s.len()` known at the read from
+    the slice itself (what a user's `remaining()` said about the cursor does not bound the slice `chunk()` returned, C17)"""
+    ctx = Ctx(caller, bi, facts, norm=norm_len)
+    base = canon(strip_ptr(ptr))
+    off = ("const", 0)
+    if is_call(base, "add") and len(base[2]) == 2:
+        off = base[2][1]
+        base = canon(strip_ptr(base[2][0]))
+    if (is_call(base, "as_ptr") or is_call(base, "as_mut_ptr")) and len(base[2]) == 1:
+        s_ = base[2][0]
+        ln = ("call", "len", (slice_id(norm_len(s_)),))
+        if ctx.lt(off, ln) or (off == ("const", 0) and nonempty_index(s_, ctx)):
+            return True, "read at %s + %s under the guard %s < len" % (fmt_expr(base)[:50], fmt_expr(off)[:30], fmt_expr(off)[:30])
+        return False, "a byte is read at %s + %s and nothing that holds there says %s < %s: an empty / shorter slice makes this a read out of bounds" % (
+            fmt_expr(base)[:60], fmt_expr(off)[:30], fmt_expr(off)[:30], fmt_expr(ln)[:60])
+    return False, "a byte is read through the raw pointer %s, which is not the start of a slice whose length bounds the read" % fmt_expr(base)[:80]
 
 
 def slice_id(e):
